@@ -142,6 +142,25 @@ func unreachMotif(rt *rapid.T) *vcase.Case {
 	c.Main = &vcase.Program{Steps: []*vcase.Step{v, f, b},
 		Outputs: []*vcase.Output{{ID: "success", Val: vcase.MapVal([]string{"r"}, []*vcase.Val{vcase.ExprVal(&vcase.Expr{K: "out", Step: "uf", Stage: "outputs", Output: "success", Path: []string{"s"}})})}}}
 	c.Labels = []string{"motif:stage-output-becomes-impossible", "unreach-motif:victim-" + kind, "unreach-motif:follower-needs-" + pick.stage + "." + pick.output}
+	// the follower may wait in its enabling stage instead (its enabled condition reads the victim's
+	// success output), and may still be deploying when the victim's last event arrives
+	if pick.stage == "outputs" && pick.output == "success" && rapid.Bool().Draw(rt, "um.wait-in-enabling") {
+		f.WaitFor = nil
+		f.Enabled = vcase.ExprVal(&vcase.Expr{K: "out", Step: "uv", Stage: "outputs", Output: "success", Path: []string{"ok"}})
+		c.Labels = append(c.Labels, "unreach-motif:follower-waits-in-enabling")
+	}
+	if d := rapid.SampledFrom([]int{0, 0, 15, 40}).Draw(rt, "um.follower-deploy-ms"); d > 0 {
+		c.Script.Deploys["vp://uf"] = vplug.DeployBehaviour{DelayMs: d}
+		c.Labels = append(c.Labels, "unreach-motif:follower-deploys-slowly")
+	}
+	// the result may need what the follower reports only once it is closed: the graph cannot tell
+	// that this never comes, the run has to notice that nothing can move any more (every step ends
+	// here: with a never-ending bystander this is the recorded finding K14)
+	if rapid.IntRange(0, 2).Draw(rt, "um.result-needs-closed") == 0 {
+		c.Main.Outputs[0].Val = vcase.MapVal([]string{"r"}, []*vcase.Val{vcase.ExprVal(&vcase.Expr{K: "out", Step: "uf", Stage: "closed", Output: "result"})})
+		c.Script.Steps["ub"] = vplug.Behaviour{Outcome: "success", DelayMs: rapid.IntRange(0, 20).Draw(rt, "um.bystander-ms")}
+		c.Labels = append(c.Labels, "unreach-motif:result-needs-closed-of-follower")
+	}
 	return c
 }
 
